@@ -66,6 +66,11 @@ def check_updater(ctx, c):
                 f = unparse(x.func)
                 if f in NONDET_CALLS:
                     bad.append((x, f'{f}(): {NONDET_CALLS[f]}'))
+                elif f in ('str', 'repr', 'format', 'ascii') and x.args and any(isinstance(y, ast.Name) and y.id in (stream, 'self') for y in ast.walk(x.args[0])) \
+                        and not (isinstance(x.args[0], ast.Call) or isinstance(x.args[0], ast.Attribute)):
+                    # the text of an object without __str__ contains its memory address
+                    bad.append((x, f'{f}() of the stream / updater object itself: the default text of an object contains its memory address, which differs from '
+                                   'run to run and from object to object'))
                 elif f.startswith(NONDET_PREFIX):
                     bad.append((x, f'{f}(): wall clock / global generator'))
                 elif f in (f'{stream}.original_seed', 'len', 'int', 'abs', 'ord', 'sum', 'zlib.crc32', 'zlib.adler32', 'int.from_bytes', 'min', 'max') \
